@@ -134,6 +134,8 @@ pub struct Plan {
     #[serde(default)]
     pub shortread: i64,
     #[serde(default)]
+    pub shortwrite: i64,
+    #[serde(default)]
     pub dirseed: u64,
     pub maxevents: i64,
     /// leave address-space randomisation on (off by default)
@@ -157,6 +159,7 @@ impl Plan {
             stall_permille: 0,
             faults: vec![],
             shortread: 0,
+            shortwrite: 0,
             dirseed: 0,
             maxevents: 100000,
             aslr: false,
@@ -189,6 +192,9 @@ impl Plan {
         s.push_str(&format!("maxevents {}\n", self.maxevents));
         if self.shortread > 0 {
             s.push_str(&format!("shortread {}\n", self.shortread));
+        }
+        if self.shortwrite > 0 {
+            s.push_str(&format!("shortwrite {}\n", self.shortwrite));
         }
         if self.dirseed != 0 {
             s.push_str(&format!("dirseed {}\n", self.dirseed));
